@@ -5,6 +5,7 @@ pub mod c04;
 pub mod c10;
 pub mod c11;
 pub mod c13;
+pub mod detectors;
 pub mod e2e;
 
 use crate::engine::{Env, Stats, Violation};
@@ -16,6 +17,7 @@ pub fn run(env: &Env) -> Option<i32> {
         "C02" => c02::run(env),
         "C03" => c03::run_c03(env),
         "C04" => c04::run(env),
+        "C05" | "C06" | "C07" | "C08" => detectors::run(env),
         "C10" => c10::run(env),
         "C11" => c11::run_c11(env),
         "C12" => c11::run_c12(env),
@@ -31,6 +33,7 @@ pub fn replay(env: &Env, check: &str, case: &Value, st: &mut Stats) -> Option<Ve
         "C02" => c02::replay(env, check, case, st),
         "C03" | "C16" => c03::replay(env, check, case, st),
         "C04" => c04::replay(env, check, case, st),
+        "C05" | "C06" | "C07" | "C08" => detectors::replay(env, check, case, st),
         "C10" => c10::replay(env, check, case, st),
         "C11" | "C12" => c11::replay(env, check, case, st),
         "C13" => c13::replay(env, check, case, st),
